@@ -64,6 +64,7 @@ ErrProof == [t |-> "err", tx |-> NoTx, st |-> ""]
 
 Msg(kind, retries, tid) == [kind |-> kind, sigs |-> <<>>, ev |-> Empty, retries |-> retries, pad |-> 0, errd |-> FALSE, tid |-> tid]
 
+IsUsc(k) == k \in {"usc", "uscn"}       \* compass upload with / without constructor input: no signatures, no id in the data
 \* content class of a message: what its encoding is bound to besides the signatures
 \* (message id for logic calls / user contracts; the valset that signs, named by the public access data)
 ContentOf(id, m, lv) ==
@@ -72,14 +73,15 @@ ContentOf(id, m, lv) ==
     [] m.kind = "uusc"     -> <<"uusc", id, vs>>
     [] m.kind = "valset"   -> <<"valset", 0, vs>>
     [] m.kind = "handover" -> <<"handover", 0, vs>>
+    [] m.kind = "uscn"     -> <<"uscn", 0, 0>>     \* bytecode only (upload message without constructor input)
     [] OTHER               -> <<"usc", 0, 0>>      \* bytecode + constructor input only
 
 \* is `d` the exact encoding of message id/m with a non-empty prefix of its signatures?
 ExactFor(id, m, d, lv) ==
   /\ d.x = "none"
-  /\ (m.kind # "usc" => m.pad # 0)          \* without public access data there is no valset to verify against
+  /\ (~IsUsc(m.kind) => m.pad # 0)          \* without public access data there is no valset to verify against
   /\ d.c = ContentOf(id, m, lv)
-  /\ IF m.kind = "usc" THEN d.s = {}
+  /\ IF IsUsc(m.kind) THEN d.s = {}
      ELSE \E k \in 1..Len(m.sigs) : d.s = FirstK(m.sigs, k)
 
 -----------------------------------------------------------------------------
@@ -92,10 +94,14 @@ W1 == [W0 EXCEPT !.msgs = (1 :> Msg("handover", 0, 1)), !.nextId = 2, !.txs = (<
 
 \* world 2: snapshot s2 went live (message 0) and was re-published once (message 1); both transactions used
 VsData(vs) == [c |-> <<"valset", 0, vs>>, s |-> {2}, x |-> "none"]
+\* world 3: like world 1, but the upload message (0) carried no constructor input
+UscnData == [c |-> <<"uscn", 0, 0>>, s |-> {}, x |-> "none"]
+W3 == [W1 EXCEPT !.txs = (<<0, 1, "none">> :> UscnData), !.processed = {<<UscnData, 1>>}]
+
 W2 == [W0 EXCEPT !.nextId = 2, !.txs = (<<0, 1, "none">> :> VsData(1)) @@ (<<1, 1, "none">> :> VsData(2)),
                  !.processed = {<<VsData(1), 1>>, <<VsData(2), 1>>}, !.live = 2]
 
-WRec(w) == CASE w = 0 -> W0 [] w = 1 -> W1 [] OTHER -> W2
+WRec(w) == CASE w = 0 -> W0 [] w = 1 -> W1 [] w = 3 -> W3 [] OTHER -> W2
 InitW(w) ==
   LET s == WRec(w) IN
   /\ msgs = s.msgs /\ nextId = s.nextId /\ txs = s.txs /\ processed = s.processed
@@ -109,16 +115,17 @@ ValsetBlocked == \E id \in DOMAIN msgs : msgs[id].kind = "valset" \/ msgs[id].ti
 CanEnqueue(kind) ==
   CASE kind = "slc"    -> TRUE
     [] kind = "valset" -> ~ValsetBlocked          \* SendValsetMsgForChain returns early otherwise
-    [] kind = "usc"    -> deploy = "none" /\ active < 2
+    [] IsUsc(kind)     -> deploy = "none" /\ active < 2
     [] kind = "uusc"   -> TRUE
     [] OTHER           -> FALSE
 
 Enqueue(kind) ==
   /\ (kind = "uusc" => user = "none")             \* one deployment of the user contract per behaviour
   /\ IF CanEnqueue(kind)
-     THEN /\ msgs' = Put(msgs, nextId, Msg(kind, 0, IF kind = "usc" THEN 0 ELSE active))
-          /\ nextId' = nextId + 1
-          /\ deploy' = IF kind = "usc" THEN "inflight" ELSE deploy
+     THEN \* "uscn": the regular upload message (nextId) is replaced by one without constructor input (nextId + 1)
+          /\ msgs' = Put(msgs, IF kind = "uscn" THEN nextId + 1 ELSE nextId, Msg(kind, 0, IF IsUsc(kind) THEN 0 ELSE active))
+          /\ nextId' = IF kind = "uscn" THEN nextId + 2 ELSE nextId + 1
+          /\ deploy' = IF IsUsc(kind) THEN "inflight" ELSE deploy
           /\ user' = IF kind = "uusc" THEN "inflight" ELSE user
           /\ res' = "ok"
      ELSE /\ UNCHANGED <<msgs, nextId, deploy, user>> /\ res' = "noop"
@@ -135,12 +142,12 @@ Sign(v, m) ==
 TxKey(of, k, corr) == <<of, k, corr>>
 CanBuild(of, k, corr) ==
   \/ TxKey(of, k, corr) \in DOMAIN txs
-  \/ of \in DOMAIN msgs /\ (msgs[of].kind = "usc" \/ k \in 0..Len(msgs[of].sigs))
+  \/ of \in DOMAIN msgs /\ (IsUsc(msgs[of].kind) \/ k \in 0..Len(msgs[of].sigs))
 DataOf(of, k, corr) ==
   IF TxKey(of, k, corr) \in DOMAIN txs THEN txs[TxKey(of, k, corr)]
   ELSE [c |-> ContentOf(of, msgs[of], LiveSnap),
-        s |-> IF msgs[of].kind = "usc" THEN {} ELSE FirstK(msgs[of].sigs, k),
-        x |-> IF k = 0 /\ msgs[of].kind # "usc" /\ corr = "none" THEN "k0" ELSE corr]   \* no signature at all is not a prefix
+        s |-> IF IsUsc(msgs[of].kind) THEN {} ELSE FirstK(msgs[of].sigs, k),
+        x |-> IF k = 0 /\ ~IsUsc(msgs[of].kind) /\ corr = "none" THEN "k0" ELSE corr]   \* no signature at all is not a prefix
 
 Evidence(v, m, t, of, k, corr, st, n) ==
   LET e == IF t = "err" THEN ErrProof ELSE [t |-> "tx", tx |-> <<DataOf(of, k, corr), n>>, st |-> st] IN
@@ -169,7 +176,7 @@ Lv(st) == IF st.live = 0 THEN 1 ELSE 2
 OnErrProof(st, id, m) ==
   LET s1 == Remove(st, id) IN
   CASE m.kind = "slc"  -> IF m.retries < MaxRetries THEN Spawn(s1, Msg("slc", m.retries + 1, m.tid)) ELSE s1
-    [] m.kind = "usc"  -> IF m.retries < MaxRetries THEN Spawn(s1, Msg("usc", m.retries + 1, 0))
+    [] IsUsc(m.kind)   -> IF m.retries < MaxRetries THEN Spawn(s1, Msg(m.kind, m.retries + 1, 0))
                           ELSE [s1 EXCEPT !.deploy = "none"]
     [] m.kind = "uusc" -> IF m.retries < MaxRetries THEN Spawn(s1, Msg("uusc", m.retries + 1, m.tid))
                           ELSE [s1 EXCEPT !.user = "error"]
@@ -184,7 +191,7 @@ OnAccepted(st, id, m, tx) ==
   CASE m.kind = "slc"      -> s1
     [] m.kind = "valset"   -> [s1 EXCEPT !.live = @ + 1,
                                          !.msgs = Restrict(@, {j \in DOMAIN @ : ~(@[j].kind = "valset" /\ j < id)})]
-    [] m.kind = "usc"      -> IF st.deploy # "inflight" THEN [st EXCEPT !.err = "other"]
+    [] IsUsc(m.kind)       -> IF st.deploy # "inflight" THEN [st EXCEPT !.err = "other"]
                               ELSE Spawn([s1 EXCEPT !.deploy = "waiting"], Msg("handover", 0, st.active))
     [] m.kind = "handover" -> IF st.deploy # "waiting" THEN [st EXCEPT !.err = "other"]
                               ELSE [s1 EXCEPT !.deploy = "none", !.active = 2]
@@ -218,7 +225,7 @@ EndBlock ==
 
 -----------------------------------------------------------------------------
 Next ==
-  \/ \E kind \in {"slc", "valset", "usc", "uusc"} : Enqueue(kind)
+  \/ \E kind \in {"slc", "valset", "usc", "uscn", "uusc"} : Enqueue(kind)
   \/ \E v \in Vals, m \in 1..nextId : Sign(v, m)
   \/ EndBlock
 
@@ -238,7 +245,7 @@ FailedOrForeignRemovesWithoutEffects ==
 \* the effect state is exactly what the applications account for
 CountKind(k) == Cardinality({i \in DOMAIN applied : applied[i].kind = k})
 EffectsAccounted ==
-  /\ CountKind("handover") <= 1 /\ CountKind("usc") <= 1
+  /\ CountKind("handover") <= 1 /\ CountKind("usc") + CountKind("uscn") <= 1
   /\ (user = "active" => CountKind("uusc") >= 1)
 TypeOK == /\ live >= 0 /\ active \in {1, 2} /\ deploy \in {"none", "inflight", "waiting"}
           /\ user \in {"none", "inflight", "active", "error"}
